@@ -194,6 +194,13 @@ Theorem C17_item_ended_by_end_of_input : forall flags (junk : list byte) n0 (nam
   parse_tokparam flags (junk ++ ((n0 :: name) ++ vbody v) ++ sp) k tokparam0
   = Done (a + nnat (length (vbody v)) + nnat (length sp)) EEOH (exp_item k a v EEoi 0 PFIN).
 Proof. exact item_eoi. Qed.
+Theorem C17_item_ended_by_end_of_header : forall flags (junk : list byte) n0 (name : list byte) v,
+  plain flags n0 -> Forall (plain flags) name -> vok flags v ->
+  forall (sp : list byte) x (tail : list byte), HdrSpec.spaces sp -> is_sp x = false ->
+  let k := nnat (length junk) in let a := k + nnat (length (n0 :: name)) in
+  parse_tokparam flags (junk ++ ((n0 :: name) ++ vbody v) ++ sp ++ CR :: LF :: x :: tail) k tokparam0
+  = Done (a + nnat (length (vbody v)) + nnat (length sp) + 2) EEOH (exp_item k a v EEoi 0 PFIN).
+Proof. exact item_eoh. Qed.
 (* satisfiable: ab, a fold, =, a blank, the quoted string x-backslash-dquote-y, a blank, the separator, a blank, c *)
 Example C17_item_example :
   let v := VQuoted [32;13;10;32] [32] [120;92;34;121] in
@@ -287,6 +294,7 @@ Print Assumptions C17_uri_parameter_list_general_items.
 Print Assumptions C17_item_ended_by_terminator.
 Print Assumptions C17_item_then_next_item.
 Print Assumptions C17_item_ended_by_end_of_input.
+Print Assumptions C17_item_ended_by_end_of_header.
 Print Assumptions C17_uri_header_list.
 Print Assumptions C17_uri_parameter_list_to_end_of_input.
 Print Assumptions C17_uri_header_list_to_end_of_input.
